@@ -13,9 +13,11 @@ real code run on the same observations with an unambiguous labelling.
   `(t, rv, err, ids[row])` equals the union of the inputs tagged with their key, (2) times sorted, (3) the constant
   block of the design matrix has a one in column 0 and, in column 1+j, a one exactly on the rows whose *true*
   source (from the recognisable velocity) has the (j+1)-th smallest key, (4) trend columns = (t - t_min)^l;
-* end to end: `marginal_ln_likelihood(data)` on the real code vs the *same real code* with
-  `validate_prepare_data` replaced (module attribute patch, harness side) by the harness' own merge: rows sorted by
-  the harness, labels taken from the observations themselves, indicator columns built from those labels.
+* end to end: `TheJoker.marginal_ln_likelihood(data)` vs the *same real kernel* (`CJokerHelper` +
+  `marginal_ln_likelihood_inmem`) fed with the harness' own merge: rows sorted by the harness, labels taken from the
+  observations themselves, indicator columns built from those labels (nothing of `validate_prepare_data` /
+  `_make_joker_helper` is used for the reference).  The reference key -> column rule is the code's (smallest key
+  is the reference, columns in key order; list input: source k -> dv0_k).
 
 Tolerances:
 * same velocity unit in all sources: t, rv, err, ids, constant block compared exactly (bit patterns);
@@ -238,7 +240,6 @@ def run_merge(ctx, g, rng):
     inp = case_input(c)
     nsurv, p = c["nsurv"], c["p"]
     data = build_data(c)
-    f0 = FAC[c["units"][0]]
     mixed = len(set(c["units"])) > 1
     tags = dict(form=c["form"], layout=c["layout"], mixed_units=mixed)
     ctx.count(f"form:{c['form']}")
@@ -248,6 +249,16 @@ def run_merge(ctx, g, rng):
     if sum(c["sizes"]) > 16:
         ctx.count("rows>16")
     all_data, ids, M = validate_prepare_data(data, p, nsurv - 1)
+    # the unit of the merged data is not fixed by the property (the code uses the first source's): take it as found
+    import astropy.units as u
+    unit_name = next((k for k in FAC if u.Unit(k) == all_data.rv.unit and u.Unit(k) == all_data.rv_err.unit), None)
+    if unit_name is None:
+        report(ctx, rel, g, inp, dict(unit=str(all_data.rv.unit), err_unit=str(all_data.rv_err.unit)), None,
+               "merged velocities and errors must come in one velocity unit", tags=dict(tags, what="units"))
+        return
+    if unit_name != c["units"][0]:
+        ctx.count("merged-unit-not-first-source")
+    f0 = FAC[unit_name]
     t_out = np.array(all_data._t_bmjd, dtype="f8")
     rv_out = np.array(all_data.rv.value, dtype="f8")
     err_out = np.array(all_data.rv_err.value, dtype="f8")
@@ -302,13 +313,33 @@ def run_merge(ctx, g, rng):
         if M.shape != (n, nsurv + p - 1):
             why, what = f"design matrix shape {M.shape}, expected {(n, nsurv + p - 1)}", "design"
         else:
+            # the property: column 0 is one; every row of a source carries the same offset pattern; exactly one
+            # source (the reference) has no offset column, every other source has exactly one column of its own.
+            # Which source is the reference is fixed by the property for list input only (first source, k-th further
+            # source -> column k); for dict input the code's rule (smallest key, columns in key order) is part of
+            # the model and a deviation from it is a model/implementation difference, not a violation.
+            pattern = {}
             for r, (s, i) in enumerate(src_of_row):
-                want = [1.0] + [1.0 if c["keys"][s] == uq[j + 1] else 0.0 for j in range(nsurv - 1)]
-                if [float(x) for x in M[r, :nsurv]] != want:
-                    why, what = (f"design row {r} (observation {i} of source {c['keys'][s]!r}) has constant block "
-                                 f"{M[r, :nsurv].tolist()}, expected {want}: reference = smallest key {uq[0]!r}, "
-                                 f"column 1+j = (j+1)-th key of {uq}"), "indicators"
+                row = [float(x) for x in M[r, :nsurv]]
+                off = row[1:]
+                if row[0] != 1.0 or any(x not in (0.0, 1.0) for x in off) or sum(off) > 1:
+                    why, what = (f"design row {r} (observation {i} of source {c['keys'][s]!r}) has constant block {row}: "
+                                 "column 0 must be one and at most one offset column may be set"), "indicators"
                     break
+                if pattern.setdefault(s, off) != off:
+                    why, what = (f"observations of source {c['keys'][s]!r} do not share one offset column: row {r} has "
+                                 f"{off}, an earlier row of the same source {pattern[s]}"), "indicators"
+                    break
+            if why is None:
+                pats = [tuple(pattern[s]) for s in range(nsurv)]
+                if len(set(pats)) != nsurv or sum(1 for q_ in pats if not any(q_)) != 1:
+                    why, what = (f"offset columns per source {dict(zip(map(str, c['keys']), pats))}: every non-reference "
+                                 "source needs a column of its own and exactly one source none"), "indicators"
+                elif c["form"] == "list":
+                    want = [tuple(1.0 if k == s else 0.0 for k in range(1, nsurv)) for s in range(nsurv)]
+                    if pats != want:
+                        why, what = (f"list input: first source is the reference and the k-th further source gets "
+                                     f"dv0_k; got {pats}"), "indicators"
     tmin = min(v[0] for v in exp_rows.values())
     if why is None:
         if bits(float(all_data._t_ref_bmjd)) != bits(tmin):
@@ -322,8 +353,6 @@ def run_merge(ctx, g, rng):
                 if abs(Fraction(float(M[r, nsurv + l - 1])) - ex) > abs(ex) * Fraction(16, 2 ** 52):
                     why, what = f"trend column {l} of row {r} is {M[r, nsurv + l - 1]!r}, expected (t-t_min)^{l} = {float(ex)!r}", "trend"
                     break
-    if why is None and all_data.rv.unit != __import__("astropy.units", fromlist=["Unit"]).Unit(c["units"][0]):
-        why, what = f"merged unit {all_data.rv.unit} is not the unit of the first source", "units"
 
     crossing = any(src_of_row[r][0] != sorted(src_of_row)[r][0] for r in range(len(src_of_row))) if len(src_of_row) == n else True
     if crossing:
@@ -514,7 +543,6 @@ def run_e2e(ctx, g, rng):
     import astropy.units as u
     from astropy.time import Time
     import scen
-    import thejoker.thejoker as TJ
     from thejoker import RVData
     rel = "marginal_ln_likelihood(list|dict)=likelihood of the labelled data"
     p, q = E2E_SHAPES[g["index"] % len(E2E_SHAPES)]
@@ -558,25 +586,25 @@ def run_e2e(ctx, g, rng):
     uq = sorted(keys)
     n = len(cat_t)
 
+    from thejoker.src.fast_likelihood import CJokerHelper
+    from thejoker.likelihood_helpers import marginal_ln_likelihood_inmem
+
     def reference(order, labels_of_rows):
-        def ref_vpd(_data, poly_trend, n_offsets):
-            ad = RVData(Time(cat_t[order], format="mjd", scale="tcb"), cat_rv[order] * u.km / u.s, cat_err[order] * u.km / u.s)
-            lab = labels_of_rows(ad)
-            Mc = np.zeros((n, nsurv))
-            Mc[:, 0] = 1.0
-            for r in range(n):
-                for j in range(1, nsurv):
-                    if keys[lab[r]] == uq[j]:
-                        Mc[r, j] = 1.0
-            dt = ad._t_bmjd - ad._t_bmjd.min()
-            Mt = np.vander(dt, N=poly_trend, increasing=True)[:, 1:]
-            return ad, np.array([keys[s] for s in lab]), np.hstack([Mc, Mt])
-        old = TJ.validate_prepare_data
-        TJ.validate_prepare_data = ref_vpd
-        try:
-            return np.array(joker.marginal_ln_likelihood(data, samples, in_memory=True), dtype="f8")
-        finally:
-            TJ.validate_prepare_data = old
+        """the kernel on the harness' own merge: rows in time order, indicator columns from the given labels (nothing
+        of validate_prepare_data / _make_joker_helper is used)"""
+        ad = RVData(Time(cat_t[order], format="mjd", scale="tcb"), cat_rv[order] * u.km / u.s, cat_err[order] * u.km / u.s)
+        lab = labels_of_rows(ad)
+        Mc = np.zeros((n, nsurv))
+        Mc[:, 0] = 1.0
+        for r in range(n):
+            for j in range(1, nsurv):
+                if keys[lab[r]] == uq[j]:
+                    Mc[r, j] = 1.0
+        dt = ad._t_bmjd - ad._t_bmjd.min()
+        Mt = np.vander(dt, N=p, increasing=True)[:, 1:]
+        helper = CJokerHelper(ad, pr.prior, np.hstack([Mc, Mt]))
+        packed, _ = samples.pack(units=helper.internal_units, names=helper.packed_order)
+        return np.array(marginal_ln_likelihood_inmem(helper, packed), dtype="f8")
 
     order = np.argsort(cat_t, kind="stable")
 
